@@ -302,7 +302,9 @@ struct W1 {
 };
 
 RunResult run_w1(const Plan& pl) {
-    RunResult res; sim::RunConfig cfg = config_from(pl); cfg.step_budget = 600000000ull;
+    RunResult res; sim::RunConfig cfg = config_from(pl);
+    // logical step budget (deterministic hang / mesh-explosion detection), scaled with the size of the plan: 6e8 covers 4 cells x 45 iterations many times over
+    { double work = 0; for (const Op& op : pl.ops) if (op.name == "iter") work += op.arg(0, 1); work *= std::max(1, pl.geti("ncells", 1)); cfg.step_budget = (uint64_t)(6e8 * std::max(1.0, work / 135.0)); if (pl.p.count("step_budget")) cfg.step_budget = (uint64_t)pl.get("step_budget"); }
     sim::clear_faults(); sim::begin_run(cfg);
     std::vector<uint64_t> hashA; uint64_t nA = 0; bool interactA = false;
     {
